@@ -17,6 +17,7 @@ pub mod c17;
 pub mod c18;
 pub mod c19;
 pub mod c20;
+pub mod hb;
 pub mod sched;
 
 /// Dispatches a subcommand. Exit code 0 = shard ran to completion (verdicts are in the report).
@@ -41,6 +42,7 @@ pub fn run(args: &Args) -> i32 {
         "c19" => c19::run(args),
         "c20" => c20::run(args),
         "c05" => c05::run(args),
+        "hb" => hb::run(args),
         "c07" => sched::run(args, "c07", "C07", 25_600, 300_000, 5),
         "c10" => sched::run(args, "c10", "C10", 120_000, 1_500_000, 0),
         "c12" => sched::run(args, "c12", "C12", 25_600, 300_000, 4),
